@@ -179,6 +179,14 @@ def finish(prop, tier, seed, repo, hs, results, extra, wall, args):
                 if tier == "quick" and baseline[n].get("tier") == "thorough":
                     continue
                 undecided.append({"obligation": n, "reason": "obligation of the baseline was not generated on this tree (contract stale or code left the path)"})
+    # one report per obligation
+    seen_ob = set()
+    uniq = []
+    for v in violations:
+        if v["obligation"] not in seen_ob:
+            seen_ob.add(v["obligation"])
+            uniq.append(v)
+    violations = uniq
     # known findings
     fired = []
     kept = []
@@ -207,10 +215,11 @@ def finish(prop, tier, seed, repo, hs, results, extra, wall, args):
         fn = write_replay(prop, v["obligation"], payload)
         print("VIOLATION property=%s replay=%s obligation=%s%s" % (prop, fn, v["obligation"], "" if v["confirmed"] else " no-failing-input-found"))
         exit_code = 1
-    if exit_code == 0 and undecided:
+    if undecided:
         for u in undecided[:20]:
             print("UNDECIDED property=%s obligation=%s reason=%s" % (prop, u["obligation"], u["reason"]))
-        exit_code = 2
+        if exit_code == 0:
+            exit_code = 2
     if args.update_baseline and exit_code == 0:
         baseline_all[prop] = {o["name"]: {"status": o["status"], "havoc": o["havoc"], "kind": o["kind"], "tier": hmap[o["harness"]].tier} for o in ob_rows}
         with open(BASELINE, "w") as fh:
